@@ -204,6 +204,9 @@ impl<F: RedisClientFactory> ReplicatorManager<F> {
                 tokio::spawn(fut);
             }
             *replicators = (epoch, new_replicators);
+            // A forced caller may install an epoch lower than what another caller stored
+            // into `updating_epoch` meanwhile; keep the fast-path filter in sync.
+            self.updating_epoch.store(epoch, atomic::Ordering::SeqCst);
         }
         Ok(())
     }
